@@ -33,7 +33,11 @@ fn o2i(o: Ordering) -> i8 {
 
 pub fn spaces(tier: Tier) -> Vec<Space<'static>> {
     let base: &[RVal] = if tier.thorough() { univ::p5() } else { univ::d2() };
-    let d = docs(univ::relation_universe(base, true));
+    let d = docs({
+        let mut u = univ::relation_universe(base, true);
+        u.extend(refmodel::gen::strkey_docs());
+        u
+    });
     let n = d.vals.len();
     let mut sp: Vec<Space> = vec![];
     let d1 = d.clone();
